@@ -1,21 +1,20 @@
-SPECIFICATION FineSpec
+SPECIFICATION FineFair
 CONSTANTS
   Cons = {"s1", "s2"}
   Healthy = {}
   Other = {}
-  N = 3
+  N = 1
   HCap = 64
   Parts = 1
   ElemParts = 1
-  WsMode = TRUE
-  EnqAcct = FALSE
-  HasDeadline = TRUE
+  WsMode = FALSE
+  EnqAcct = TRUE
+  HasDeadline = FALSE
   Prime = FALSE
-  MaxPub = 4
+  MaxPub = 2
   MaxRead = 2
   MaxStall = 2
-  MaxSweep = 2
+  MaxSweep = 0
   MaxLeave = 0
   MaxPubB = 0
-INVARIANTS WholeUnits NoBlocking QueueBound
-VIEW FineView
+PROPERTY EventuallyClosed
